@@ -12,7 +12,7 @@ import (
 // C11 / C07 / C12 — a server-stream correctable call on the full stack (real sender, receiver,
 // routeResponse, cancelPendingMsgs, reconnect, Close). The peer streams up to maxReplies
 // replies for the one request and then the connection ends - mode 0: the stream breaks,
-// mode 1: Manager.Close - at any point, in particular while replies are still unconsumed in
+// mode 1: Manager.Close, mode 2: the call's context is cancelled - at any point, in particular while replies are still unconsumed in
 // the call's reply buffer because the goroutine that runs the quorum function is slow (every
 // schedule is explored). Whatever the schedule, once the node has failed the call must
 // complete: with Incomplete naming the node once (mode 0), with some error (mode 1); Done is
@@ -30,7 +30,14 @@ func VerifC11Stream(maxReplies, mode int) {
 		return &vMsg{tok: 100 + invocations}, invocations, false // level rises with every reply, never done
 	}
 	vKnown("R-corrstream", true)
-	corr := w.cfg.CorrectableCall(context.Background(), d)
+	ctx, cancel := context.WithCancel(context.Background())
+	if mode == 2 {
+		// C08 for streams that never end: once the context has ended, a streamed reply may only
+		// be taken by an operation that also offered the context (a loop that polls the reply
+		// channel first never looks at the context while replies keep coming)
+		vRecvMustOffer("gorums.response", ctx.Done(), "C08.reply-taken-without-offering-the-ended-context")
+	}
+	corr := w.cfg.CorrectableCall(ctx, d)
 	vQuiescent()
 	a := p.take()
 	vAssert(a != nil, "C06.request-not-delivered")
@@ -38,10 +45,13 @@ func VerifC11Stream(maxReplies, mode int) {
 	for i := 0; i < k; i++ {
 		vAssert(p.reply(a, vStamp(p, a, i), nil), "harness.inbox-full")
 	}
-	if mode == 0 {
+	switch mode {
+	case 0:
 		p.breakStreams()
-	} else {
+	case 1:
 		w.mgr.Close()
+	case 2:
+		cancel() // the caller gives up, at any point, whatever is still buffered or coming
 	}
 	vFreezeEnv()
 	vQuiescent()
@@ -52,6 +62,11 @@ func VerifC11Stream(maxReplies, mode int) {
 		vFail("C11.stream-call-not-completed-after-its-node-failed|C07.call-left-waiting|C12.in-flight-call-stranded")
 	}
 	vAssert(err != nil, "C11.completed-without-quorum-and-without-error")
+	if mode == 2 {
+		vReach("stream-cancelled")
+		vAssert(errors.Is(err, context.Canceled), "C08.error-does-not-match-context")
+		return
+	}
 	if mode == 0 {
 		qe, isQE := err.(QuorumCallError)
 		vAssert(isQE && errors.Is(err, Incomplete), "C11.failure-cause")
